@@ -153,6 +153,11 @@ class SymPath:
             text, truth = it[1], it[2]
             if not isinstance(truth, bool):
                 continue
+            # one spelling per comparison: `(a != b)` is `(a == b)` negated
+            if text.startswith("(") and " != " in text:
+                sp_ = _split_top(text, " != ")
+                if sp_ is not None:
+                    text, truth = f"({sp_[0]} == {sp_[1]})", not truth
             c = _fold(text)
             if c is not None and c != truth:
                 return False
@@ -166,6 +171,24 @@ class SymPath:
             if seen.setdefault(key, truth) != truth:
                 return False
         return True
+
+
+def _split_top(text, op):
+    """operands of a parenthesised binary expression `(a <op> b)` whose
+    operator is at nesting depth 1; None otherwise"""
+    if not (text.startswith("(") and text.endswith(")")):
+        return None
+    d = 0
+    for i, ch in enumerate(text):
+        if ch == "(":
+            d += 1
+        elif ch == ")":
+            d -= 1
+            if d == 0 and i != len(text) - 1:
+                return None
+        elif d == 1 and text.startswith(op, i):
+            return text[1:i], text[i + len(op):-1]
+    return None
 
 
 def _fold(text):
@@ -200,6 +223,101 @@ def _stores_in_order(n, out):
             out.append(n)
 
 
+# ---------------------------------------------------------------------------
+# transparent single-use helpers
+#
+# A static function that is called from exactly one place in the file and
+# whose address is never taken is the result of "extract function": for the
+# path rules it is part of its caller.  Its symbolic paths are spliced into
+# the caller's path at the call (`x = h(..)`, `return h(..)`, `h(..);`), the
+# call itself leaves no trace item.  The context (facts, CFG factory) is set
+# by cfacts when the C facts are loaded.
+
+_INLINE = {"ctx": None, "facts": None, "targets": None, "stack": []}
+# single-use functions that stay opaque, with the reason
+NO_INLINE = {
+    "trait_clear": "tp_clear slot body, called from trait_dealloc only",
+    "has_traits_clear": "tp_clear slot body, called from the dealloc only",
+}
+
+
+def set_inline_context(ctx, facts):
+    if _INLINE["facts"] is not facts:
+        _INLINE.update(ctx=ctx, facts=facts, targets=None, stack=[])
+
+
+def inline_targets(facts):
+    """{function name: [parameter names]} of the transparent helpers"""
+    defined = set(facts.defined_functions())
+    call_sites, refs = {}, {}
+    for d in facts.decls:
+        owner = d.name if d.kind == "FunctionDecl" else None
+        callee_nodes = set()
+        for x in d.walk():
+            if x.kind == "CallExpr":
+                c = callee(x)
+                if c in defined:
+                    call_sites.setdefault(c, []).append(owner)
+                    f0 = strip(x.ch[0])
+                    if f0 is not None:
+                        callee_nodes.add(id(f0))
+        for x in d.walk():
+            if x.kind == "DeclRefExpr" and x.refkind == "FunctionDecl" \
+                    and x.ref in defined and id(x) not in callee_nodes:
+                refs[x.ref] = refs.get(x.ref, 0) + 1
+    out = {}
+    for f, sites in call_sites.items():
+        if len(sites) != 1 or sites[0] is None or sites[0] == f \
+                or f in refs or f in NO_INLINE:
+            continue
+        t = facts.func(f).type or ""
+        ps = [p_.name for p_ in facts.params(f)]
+        if any(not n for n in ps):
+            continue
+        out[f] = ps
+    return out
+
+
+def _inline_site(node):
+    """(kind, target local, call node) when the node is `x = h(..)`,
+    `T x = h(..)`, `return h(..)` or `h(..);` with h a transparent helper"""
+    if _INLINE["facts"] is None or node.ast is None:
+        return None
+    if _INLINE["targets"] is None:
+        _INLINE["targets"] = inline_targets(_INLINE["facts"])
+    tg = _INLINE["targets"]
+    if not tg:
+        return None
+    a = node.ast
+    kind = lhs = call = None
+    if node.kind == "return":
+        e = strip(a.ch[0]) if a.ch else None
+        if e is not None and e.kind == "CallExpr":
+            kind, call = "return", e
+    elif node.kind == "stmt":
+        top = strip(a) if a.kind != "VarDecl" else a
+        if top is None:
+            return None
+        if top.kind == "VarDecl":
+            init = [c for c in top.ch if c.kind != "UnusedAttr"]
+            e = strip(init[-1]) if init else None
+            if e is not None and e.kind == "CallExpr":
+                kind, lhs, call = "assign", top.name, e
+        elif top.kind == "BinaryOperator" and top.op == "=" and var(top.ch[0]):
+            e = strip(top.ch[1])
+            if e is not None and e.kind == "CallExpr":
+                kind, lhs, call = "assign", var(top.ch[0]), e
+        elif top.kind == "CallExpr":
+            kind, call = "expr", top
+    if call is None:
+        return None
+    f = callee(call)
+    if f not in tg or f in _INLINE["stack"] \
+            or len(call.ch) - 1 != len(tg[f]):
+        return None
+    return kind, lhs, call, f
+
+
 def sym_paths(g, start=None, seed=None, stops=None, max_paths=60000,
               name=""):
     """Enumerate symbolic paths.  ``stops``: node id -> tag ends a path."""
@@ -214,6 +332,61 @@ def sym_paths(g, start=None, seed=None, stops=None, max_paths=60000,
         if nid in stops:
             out.append(SymPath(trace, ("STOP", stops[nid]), lines,
                                nodes + [nid], dict(env)))
+            return
+        site = _inline_site(node) if node.kind in ("stmt", "return") \
+            else None
+        if site is not None:
+            kind, lhs, call, fn_ = site
+            from .ccfg import get_ccfg
+            pre = Sym(dict(env))
+            # nested calls in the arguments are evaluated (and traced) first
+            ev0 = list(trace)
+            inner = []
+            for a_ in call.ch[1:]:
+                _calls_in_order(a_, inner)
+            for c_ in inner:
+                ev0.append(("call", callee(c_),
+                            [pre.text(x) for x in c_.ch[1:]], pre.text(c_),
+                            c_.line or node.line, False))
+            argt = [pre.text(a_) for a_ in call.ch[1:]]
+            seed2 = {k: v for k, v in pre.env.items()
+                     if "->" in k or k.startswith("#")}
+            seed2.update(zip(_INLINE["targets"][fn_], argt))
+            g2 = get_ccfg(_INLINE["ctx"], _INLINE["facts"], fn_)
+            _INLINE["stack"].append(fn_)
+            try:
+                subs = sym_paths(g2, seed=seed2, max_paths=2000, name=fn_)
+            finally:
+                _INLINE["stack"].pop()
+            for sp in subs:
+                if sp.outcome[0] not in ("RETURN", "END"):
+                    continue
+                rv = sp.outcome[1] if sp.outcome[0] == "RETURN" else ""
+                env2 = dict(pre.env)
+                for k, v in sp.env.items():
+                    if "->" in k:
+                        env2[k] = v
+                tr2 = ev0 + [((t[0], t[1], t[2], -1) if t[0] == "atom" else t)
+                             for t in sp.trace]
+                ln2 = lines + [node.line] + list(sp.lines)
+                if kind == "return":
+                    out.append(SymPath(tr2, ("RETURN", rv), ln2 + [node.line],
+                                       nodes + [nid], env2))
+                    continue
+                if kind == "assign":
+                    env2[lhs] = rv
+                succ_ = g.succ[nid]
+                if not succ_:
+                    out.append(SymPath(tr2, ("END",), ln2, nodes + [nid],
+                                       env2))
+                    continue
+                for lab, tgt in succ_:
+                    cnt = counts.get(tgt, 0)
+                    if cnt >= 2:
+                        continue
+                    counts[tgt] = cnt + 1
+                    go(tgt, dict(env2), tr2, ln2, nodes + [nid], counts)
+                    counts[tgt] = cnt
             return
         sym = Sym(env)
         ev2 = trace
